@@ -4,13 +4,19 @@
     parsed (C19/C01 theorem [parse_serialize] holds for every rest of the stream and every tail
     condition, in particular for a truncated remainder); (2) a stream that ends inside or right
     before the end-of-record marker is reported by the marker check under warn and fail;
-    (3) the parser never consumes more than it was given (C05).  Not yet mechanised: the
-    composition into the whole-file statement (every cut position of every well-formed file),
-    which is evaluated on the implementation for every cut position by the executable statement
-    (domain trunc) and tied to the model by the sequential-reading correspondence (domain unm,
-    including cut gzip members). *)
+    (3) the parser never consumes more than it was given (C05); (4) the whole-file half
+    "complete records survive": for every sequence of valid records followed by ANY remainder (the
+    prefix of a cut record, junk, nothing) and any stream tail, sequential reading returns
+    exactly those records, clean, at their offsets, and then continues on the remainder
+    ([C06_complete_records_before_the_cut_survive]).  Not mechanised: "the cut is visible" for a
+    remainder that ends inside the version line, the header or the block (it needs the parse of
+    every proper prefix of a record; the marker case is theorem 2), and the gzip container.  Both
+    are evaluated on the implementation for every cut position by the executable statement
+    (domain trunc; a cut that leaves fewer than 5 bytes is visible as end-of-file reported
+    before the end of the data) and tied to the model by the sequential-reading correspondence
+    (domain unm, including cut gzip members). *)
 Require Import Model.Bytes Model.FieldDef Gen.FieldTable Model.Fields Model.Policy Model.Stream Model.HeaderParse Model.Digest Model.Record.
-Require Import Proofs.HeaderProofs Proofs.RecordProofs.
+Require Import Proofs.HeaderProofs Proofs.RecordProofs Proofs.RoundTripProofs.
 
 Theorem C06_complete_header_section_survives_any_remainder :
   forall uni_lower mime_dec p fs rest tl fnd,
@@ -30,3 +36,18 @@ Theorem C06_complete_marker_is_accepted :
   forall o rest tl fnd, trailer o (mkst (CRLFCRLF ++ rest) tl) fnd = Ok (mkst rest tl) fnd.
 Proof. exact trailer_ok. Qed.
 Print Assumptions C06_complete_marker_is_accepted.
+
+Theorem C06_complete_records_before_the_cut_survive :
+  forall uni_lower uni_upper time_ok ip_ok uri_ok wid_ok mime_dec H b32 b64 http_req_ok http_resp_ok o rs rest tl k base,
+    (forall r, In r rs -> exists bd pd,
+        valid_record field_table required_fields uni_lower uni_upper time_ok ip_ok uri_ok wid_ok mime_dec H b32 b64
+                     http_req_ok http_resp_ok o r bd pd) ->
+    read_all_plain field_table required_fields uni_lower uni_upper time_ok ip_ok uri_ok wid_ok mime_dec H b32 b64
+                   http_req_ok http_resp_ok (length rs + k) o (mkst (flat_map marshal rs ++ rest) tl) base
+    = expected rs rest tl base
+      ++ read_all_plain field_table required_fields uni_lower uni_upper time_ok ip_ok uri_ok wid_ok mime_dec H b32 b64
+                        http_req_ok http_resp_ok k o (mkst rest tl) (base + length (flat_map marshal rs)).
+Proof.
+  intros. apply (complete_records_survive field_table required_fields); assumption.
+Qed.
+Print Assumptions C06_complete_records_before_the_cut_survive.
